@@ -320,23 +320,38 @@ def python_state(ctx: Ctx, py: PyProgram) -> None:
                         ok = all(isinstance(s, ast.Expr) and isinstance(s.value, ast.Call) and isinstance(s.value.func, ast.Name) and s.value.func.id.startswith("_log_") for s in i.body) and not i.orelse
                 if not ok:
                     ctx.violation("C07.3/python-global", key_of(isa.EMU_PY, q, f"{c.func.id}()"), f"{q}: `{c.func.id}()` depends on mutable module state and guards more than logging", f"{isa.EMU_PY}:{c.lineno}")
-    # call_sub_level feeds only itself
+    # call_sub_level feeds only itself: whatever is computed from a read of it (through any locals) may only be stored back into it
     f = py.func(isa.EMU_PY, "Emulator._execute_instruction_impl")
-    reads = [x for x in ast.walk(f) if isinstance(x, ast.Attribute) and x.attr == "call_sub_level" and isinstance(x.ctx, ast.Load)]
-    for x in reads:
-        n += 1
-        ok = False
+    parent: dict[int, ast.AST] = {}
+    for pnode in ast.walk(f):
+        for ch in ast.iter_child_nodes(pnode):
+            parent[id(ch)] = pnode
+    tainted: set[str] = set()
+
+    def is_src(x: ast.AST) -> bool:
+        return (isinstance(x, ast.Attribute) and x.attr == "call_sub_level" and isinstance(x.ctx, ast.Load)) or (isinstance(x, ast.Name) and isinstance(x.ctx, ast.Load) and x.id in tainted)
+    changed = True
+    while changed:
+        changed = False
         for a in ast.walk(f):
-            if isinstance(a, ast.Assign) and any(y is x for y in ast.walk(a.value)) and all(isinstance(t, ast.Name) and t.id == "new_level" for t in a.targets):
-                ok = True
-        if not ok:
-            ctx.violation("C07.3/call-sub-level", key_of(isa.EMU_PY, "Emulator._execute_instruction_impl", "call_sub_level read"), "call_sub_level is read for something other than its own update", f"{isa.EMU_PY}:{x.lineno}")
-    uses_new = [x for x in ast.walk(f) if isinstance(x, ast.Name) and x.id == "new_level" and isinstance(x.ctx, ast.Load)]
-    for x in uses_new:
+            if isinstance(a, (ast.Assign, ast.AnnAssign, ast.AugAssign)) and a.value is not None and any(is_src(y) for y in ast.walk(a.value)):
+                ts = a.targets if isinstance(a, ast.Assign) else [a.target]
+                for t in ts:
+                    if isinstance(t, ast.Name) and t.id not in tainted:
+                        tainted.add(t.id)
+                        changed = True
+    for x in [y for y in ast.walk(f) if is_src(y)]:
         n += 1
-        ok = any(isinstance(a, ast.Assign) and any(y is x for y in ast.walk(a.value)) and all(attr_chain(t) == "self.regs.call_sub_level" for t in a.targets) for a in ast.walk(f))
+        st = x
+        while id(st) in parent and not isinstance(st, ast.stmt):
+            st = parent[id(st)]
+        ok = False
+        if isinstance(st, (ast.Assign, ast.AnnAssign, ast.AugAssign)) and st.value is not None and any(y is x for y in ast.walk(st.value)):
+            ts = st.targets if isinstance(st, ast.Assign) else [st.target]
+            ok = all(isinstance(t, ast.Name) or (attr_chain(t) or "").endswith(".call_sub_level") for t in ts)
         if not ok:
-            ctx.violation("C07.3/call-sub-level", key_of(isa.EMU_PY, "Emulator._execute_instruction_impl", "new_level use"), "the call-depth delta flows somewhere other than call_sub_level", f"{isa.EMU_PY}:{x.lineno}")
+            ctx.violation("C07.3/call-sub-level", key_of(isa.EMU_PY, "Emulator._execute_instruction_impl", "call_sub_level flow"),
+                          f"a value computed from call_sub_level is used in `{unparse(st)[:80]}`: the call-depth bookkeeping may only flow back into call_sub_level", f"{isa.EMU_PY}:{x.lineno}")
     # CALL_STACK_EFFECTS only feeds call_stack_delta
     for x in ast.walk(f):
         if isinstance(x, ast.Name) and x.id == "CALL_STACK_EFFECTS":
